@@ -1,15 +1,13 @@
-/* Assumed contracts (trusted here, proved by the bitpack family on the real src/core/bitpack.c) for the
- * two bitpack.c entry points called from src/encoding/delta.c.
+/* Assumed contracts (trusted here, proved by the bitpack family on the real src/core/bitpack.c, as of /repo d3d9d9d)
+ * for the two bitpack.c entry points called from src/encoding/delta.c.
  *
- * carquet_bitunpack_32(input, count, w, values), as the real code behaves (bitpack.c:209):
+ * carquet_bitunpack_32(input, count, w, values):
  *   w == 0          : reads nothing, writes count uint32 (zero), returns 0
- *   1 <= w <= 32    : every group of 8 values costs a full w bytes of input, ALSO the last, partial group
- *                     (carquet_bitunpack8_32(input + consumed, w, temp) is called for it): bytes read =
- *                     ceil(count/8) * w;  writes count uint32;  returns ceil(count*w/8).
- * carquet_bitpack_32(values, count, w, output) (bitpack.c:287):
+ *   1 <= w <= 32    : reads exactly ceil(count*w/8) bytes (a partial last group is unpacked from a zero-padded
+ *                     copy), writes count uint32, returns ceil(count*w/8).
+ * carquet_bitpack_32(values, count, w, output):
  *   w == 0 or count == 0 : nothing, returns 0
- *   1 <= w <= 32    : reads count uint32, writes ceil(count/8)*w bytes (a partial last group is padded to a
- *                     whole group by carquet_bitpack8_32), returns ceil(count*w/8).
+ *   1 <= w <= 32    : reads count uint32, writes exactly ceil(count*w/8) bytes, returns ceil(count*w/8).
  * Contents: CQV_BITPACK_EXACT selects the value-exact model (bit i*w+j of the stream <-> bit j of value i,
  * LSB first) for count <= 32; otherwise the destination is arbitrary. */
 #include <stddef.h>
@@ -24,8 +22,8 @@ size_t carquet_bitunpack_32(const uint8_t *input, size_t count, int bit_width, u
     if (count) __CPROVER_havoc_slice(values, count << 2);
     return 0;
   }
-  __CPROVER_precondition(__CPROVER_r_ok(input, ((count + 7) >> 3) * (size_t)bit_width),
-                         "bitunpack_32: input readable for ceil(count/8)*bit_width bytes (whole groups of 8)");
+  __CPROVER_precondition(__CPROVER_r_ok(input, (count * (size_t)bit_width + 7) >> 3),
+                         "bitunpack_32: input readable for ceil(count*bit_width/8) bytes");
 #ifdef CQV_BITPACK_EXACT
   for (size_t i = 0; i < 32; i++) {
     if (i < count) {
@@ -50,8 +48,8 @@ size_t carquet_bitpack_32(const uint32_t *values, size_t count, int bit_width, u
   __CPROVER_precondition(count <= ((size_t)1 << 32), "bitpack_32: count bounded");
   if (bit_width == 0 || count == 0) return 0;
   __CPROVER_precondition(__CPROVER_r_ok(values, count << 2), "bitpack_32: values readable (count uint32)");
-  __CPROVER_precondition(__CPROVER_w_ok(output, ((count + 7) >> 3) * (size_t)bit_width),
-                         "bitpack_32: output writable for ceil(count/8)*bit_width bytes (whole groups of 8)");
-  __CPROVER_havoc_slice(output, ((count + 7) >> 3) * (size_t)bit_width);
+  __CPROVER_precondition(__CPROVER_w_ok(output, (count * (size_t)bit_width + 7) >> 3),
+                         "bitpack_32: output writable for ceil(count*bit_width/8) bytes");
+  __CPROVER_havoc_slice(output, (count * (size_t)bit_width + 7) >> 3);
   return (count * (size_t)bit_width + 7) >> 3;
 }
